@@ -40,6 +40,15 @@ Theorem C21_never_below_content :
     inject_Z (zval (dw i)) <= fst r /\ inject_Z (zval (dh i)) <= snd r.
 Proof. exact never_below_content. Qed.
 
+(* Only the width given (the property makes no claim here): honoured on every shape without an aspect-ratio
+   limit; on person and oval LimitAR overrides it (`x: <label 20x300> {shape: oval; width: 50}` is 160 wide). *)
+Theorem C21_explicit_width_alone_honoured :
+  forall i a,
+    dw i = Some a -> a <> 0%Z -> aspect1 (k i) = false -> never_shrink i = false -> k i <> KImage ->
+    ar_limited (k i) = false -> (label_empty i = false \/ k i = KClass \/ k i = KSqlTable) ->
+    fst (set_dimensions i) = inject_Z a.
+Proof. exact explicit_width_alone_honoured. Qed.
+
 (* automatic size, label drawn inside: the label fits into the inner box of the final size — for every
    label size >= 0, with or without icon / link+tooltip, for every shape of the C27 model, under C27's side
    condition on the fitted content (true for all shapes but c4-person and cloud; person has an outside label).
@@ -74,6 +83,7 @@ Print Assumptions C21_explicit_size_honoured.
 Print Assumptions C21_image_explicit_size.
 Print Assumptions C21_square_circle_use_max.
 Print Assumptions C21_never_below_content.
+Print Assumptions C21_explicit_width_alone_honoured.
 Print Assumptions C21_auto_size_fits_label.
 Print Assumptions C21_auto_size_c4person_refuted.
 Print Assumptions C21_auto_size_cloud_refuted.
